@@ -60,7 +60,23 @@ def argument_attribute_writes(fi: FuncInfo) -> List[ast.AST]:
     return out
 
 
-def check_hidden_state(ctx, rule: str, funcs: Sequence[FuncInfo], eff=None, allow_globals: Iterable[str] = (), argument_caches: bool = False):
+def receiver_attribute_writes(fi: FuncInfo) -> List[ast.AST]:
+    """stores to an attribute of the receiver (``self.x = ...``, tuple targets included, ``setattr(self, ...)``) in a method"""
+    a = fi.node.args
+    first = (list(a.posonlyargs) + list(a.args))[:1]
+    if fi.cls is None or not first:
+        return []
+    me = first[0].arg
+    out: List[ast.AST] = []
+    for n in body_walk(fi.node):
+        if isinstance(n, ast.Attribute) and isinstance(n.ctx, (ast.Store, ast.Del)) and isinstance(n.value, ast.Name) and n.value.id == me:
+            out.append(n)
+        elif isinstance(n, ast.Call) and dotted(n.func) in ("setattr", "object.__setattr__") and n.args and isinstance(n.args[0], ast.Name) and n.args[0].id == me:
+            out.append(n)
+    return out
+
+
+def check_hidden_state(ctx, rule: str, funcs: Sequence[FuncInfo], eff=None, allow_globals: Iterable[str] = (), argument_caches: bool = False, receiver_caches: bool = False):
     """One obligation per function: no mutable default, no global rebinding, no write to
     module-level state (from the effect summaries when ``eff`` is given)."""
     allow = set(allow_globals)
@@ -74,6 +90,9 @@ def check_hidden_state(ctx, rule: str, funcs: Sequence[FuncInfo], eff=None, allo
         if argument_caches:
             for w in argument_attribute_writes(fi):
                 problems.append((f"stores `{short(w)}` on an argument object: a result cached on the operand survives later changes of the operand, so the conversion no longer depends on the operand's current value only", getattr(w, "lineno", fi.node.lineno)))
+        if receiver_caches:
+            for w in receiver_attribute_writes(fi):
+                problems.append((f"stores `{short(w)}` on the receiver: the receiver is mutable and can be copied, so a result remembered on it outlives the value it was computed from", getattr(w, "lineno", fi.node.lineno)))
         if eff is not None:
             for gname, sites in eff.summary(fi).globals_mutated.items():
                 if gname in allow or gname.startswith("lru:"):
